@@ -172,12 +172,35 @@ class Ctx:
             return [fn(x) for x in items]
         if chunk is None:
             chunk = max(1, min(256, len(items) // (self.workers * 8) or 1))
+        if getattr(self, "_pool", None) is not None:
+            return self._pool.map(fn, items, chunksize=chunk)
         import gc
 
         gc.collect()  # no sqlite garbage left for the pool's helper threads to finalise
         mp = multiprocessing.get_context("fork")
         with mp.Pool(self.workers) as pool:
             return pool.map(fn, items, chunksize=chunk)
+
+
+def _pool_begin(self):
+    """Keep one fork pool for several pmap calls (module globals must not change in between)."""
+    import gc
+
+    if self.workers > 1 and getattr(self, "_pool", None) is None:
+        gc.collect()
+        self._pool = multiprocessing.get_context("fork").Pool(self.workers)
+
+
+def _pool_end(self):
+    p = getattr(self, "_pool", None)
+    if p is not None:
+        p.terminate()
+        p.join()
+        self._pool = None
+
+
+Ctx.pool_begin = _pool_begin
+Ctx.pool_end = _pool_end
 
 
 def load_findings():
